@@ -30,8 +30,9 @@ CONSTANTS MaxDim,      \* start references have at most this many dimensions
 AllRefs == {<<1>>, <<2>>, <<3>>, <<1, 1>>, <<2, 1>>, <<1, 2>>, <<1, 1, 1>>}
 StartRefs == {d \in AllRefs : TcSum(d) <= MaxDim}
 
-VARIABLES ref0, chain, cur, pc, alg, nd, pre, items, post, p, steps, round
-vars == <<ref0, chain, cur, pc, alg, nd, pre, items, post, p, steps, round>>
+VARIABLES ref0, chain, cur, pc, alg, nd, pre, items, post, p, steps, round,
+          map0     \* the affine map of the input chain, computed when a rewriting starts
+vars == <<ref0, chain, cur, pc, alg, nd, pre, items, post, p, steps, round, map0>>
 
 N0 == TcSum(ref0)
 Whole == pre \o items \o post
@@ -50,17 +51,19 @@ Init == /\ ref0 \in StartRefs
         /\ cur = ref0
         /\ pc = "build" /\ alg = "none" /\ nd = 0
         /\ pre = <<>> /\ items = <<>> /\ post = <<>> /\ p = 0 /\ steps = 0 /\ round = 0
+        /\ map0 = IdMap(0)
 
 Built == Len(SelectSeq(chain, LAMBDA it : it.t # "X"))
 AddChild == /\ pc = "build" /\ round = 0 /\ Built < MaxLen
             /\ \E it \in ChildItems(cur) : chain' = Append(chain, it)
-            /\ UNCHANGED <<ref0, cur, pc, alg, nd, pre, items, post, p, steps, round>>
+            /\ UNCHANGED <<ref0, cur, pc, alg, nd, pre, items, post, p, steps, round, map0>>
 AddEdge == /\ pc = "build" /\ round = 0 /\ Built < MaxLen /\ TcSum(cur) >= 1
            /\ \E it \in EdgeItems(cur) : chain' = Append(chain, it) /\ cur' = EdgeFromRef(cur, EdgeFactor(it))
-           /\ UNCHANGED <<ref0, pc, alg, nd, pre, items, post, p, steps, round>>
+           /\ UNCHANGED <<ref0, pc, alg, nd, pre, items, post, p, steps, round, map0>>
 
 Begin(a, n, pr, its, po, q, state) ==
     /\ alg' = a /\ nd' = n /\ pre' = pr /\ items' = its /\ post' = po /\ p' = q /\ pc' = state /\ steps' = 0
+    /\ map0' = ChainMap(chain, N0)
     /\ UNCHANGED <<ref0, chain, cur, round>>
 StartCanonical == /\ pc = "build" /\ Len(chain) >= 1
                   /\ Begin("canonical", 0, <<>>, chain, <<>>, 1, IF Len(chain) < 2 THEN "done" ELSE "canon")
@@ -77,31 +80,31 @@ StartPromote == /\ pc = "build" /\ Len(chain) >= 1
 CanonSwap == /\ pc = "canon" /\ Len(items) >= 2 /\ CanonGo(items, p)
              /\ MSwapDown(items[p], items[p + 1]) # NoSwap
              /\ items' = MCanonStep(items, p)[1] /\ p' = MCanonStep(items, p)[2] /\ steps' = steps + 1
-             /\ UNCHANGED <<ref0, chain, cur, pc, alg, nd, pre, post, round>>
+             /\ UNCHANGED <<ref0, chain, cur, pc, alg, nd, pre, post, round, map0>>
 CanonSkip == /\ pc = "canon" /\ Len(items) >= 2 /\ CanonGo(items, p)
              /\ MSwapDown(items[p], items[p + 1]) = NoSwap
              /\ p' = p + 1 /\ steps' = steps + 1
-             /\ UNCHANGED <<ref0, chain, cur, pc, alg, nd, pre, items, post, round>>
+             /\ UNCHANGED <<ref0, chain, cur, pc, alg, nd, pre, items, post, round, map0>>
 CanonExit == /\ pc = "canon" /\ (Len(items) < 2 \/ ~CanonGo(items, p))
              /\ IF alg = "promote"
                 THEN /\ pre' = items /\ items' = post /\ post' = <<>> /\ p' = Len(post)
                      /\ pc' = IF Len(post) < 2 THEN "done" ELSE "upper"
                 ELSE /\ pc' = "done" /\ UNCHANGED <<pre, items, post, p>>
-             /\ UNCHANGED <<ref0, chain, cur, alg, nd, steps, round>>
+             /\ UNCHANGED <<ref0, chain, cur, alg, nd, steps, round, map0>>
 UpperSwap == /\ pc = "upper" /\ UpperGo(items, p) /\ SwapUp(items[p - 1], items[p]) # NoSwap
              /\ items' = UpperStep(items, p)[1] /\ p' = UpperStep(items, p)[2] /\ steps' = steps + 1
-             /\ UNCHANGED <<ref0, chain, cur, pc, alg, nd, pre, post, round>>
+             /\ UNCHANGED <<ref0, chain, cur, pc, alg, nd, pre, post, round, map0>>
 UpperSkip == /\ pc = "upper" /\ UpperGo(items, p) /\ SwapUp(items[p - 1], items[p]) = NoSwap
              /\ p' = p - 1 /\ steps' = steps + 1
-             /\ UNCHANGED <<ref0, chain, cur, pc, alg, nd, pre, items, post, round>>
+             /\ UNCHANGED <<ref0, chain, cur, pc, alg, nd, pre, items, post, round, map0>>
 UpperExit == /\ pc = "upper" /\ ~UpperGo(items, p)
              /\ pc' = "done"
-             /\ UNCHANGED <<ref0, chain, cur, alg, nd, pre, items, post, p, steps, round>>
+             /\ UNCHANGED <<ref0, chain, cur, alg, nd, pre, items, post, p, steps, round, map0>>
 \* feed the result to another rewriting
 Refeed == /\ pc = "done" /\ round < MaxRounds /\ Whole # chain
           /\ chain' = Whole /\ round' = round + 1 /\ pc' = "build"
           /\ alg' = "none" /\ nd' = 0 /\ pre' = <<>> /\ items' = <<>> /\ post' = <<>> /\ p' = 0 /\ steps' = 0
-          /\ UNCHANGED <<ref0, cur>>
+          /\ UNCHANGED <<ref0, cur, map0>>
 
 Next == \/ AddChild \/ AddEdge \/ StartCanonical \/ StartUppermost \/ StartPromote
         \/ CanonSwap \/ CanonSkip \/ CanonExit \/ UpperSwap \/ UpperSkip \/ UpperExit \/ Refeed
@@ -109,7 +112,8 @@ Spec == Init /\ [][Next]_vars
 
 \* ------------------------------------------------------------------ property clauses
 Running == pc \in {"canon", "upper", "done"}
-MapPreserved == Running => ChainMap(Whole, N0) = ChainMap(chain, N0)
+MapPreserved == Running => ChainMap(Whole, N0) = map0
+Map0IsInputMap == Running => map0 = ChainMap(chain, N0)
 WellFormed == WellFormedChain(chain) /\ (Running => WellFormedChain(Whole))
 InRange == /\ (pc = "canon" /\ Len(items) >= 2) => (p >= 1 /\ p <= Len(items) /\ (CanonGo(items, p) => p < Len(items)))
            /\ pc = "upper" => (p >= 1 /\ p <= Len(items) /\ (UpperGo(items, p) => p >= 2))
@@ -123,5 +127,5 @@ OperatorAgrees == pc = "done" =>
 DimsKept == (pc = "done") => (ChainToDims(Whole, N0) = ChainToDims(chain, N0) /\ ChainFromDims(Whole, N0) = ChainFromDims(chain, N0))
 
 Emit(x) == PrintT(<<"VF", ToJson(x)>>)
-EmitDone == pc = "done" => Emit([chain |-> chain, alg |-> alg, nd |-> nd, out |-> Whole, map |-> ChainMap(chain, N0), steps |-> steps])
+EmitDone == pc = "done" => Emit([chain |-> chain, alg |-> alg, nd |-> nd, out |-> Whole, map |-> map0, steps |-> steps])
 =============================================================================
